@@ -250,9 +250,8 @@ class SArr(np.ndarray):
         src = self.plain()
         for idx in np.ndindex(*self.shape):
             out[idx] = src[idx].real
-        r = SArr(out, float)
-        r._complex_parent = (self, 'real')
-        return r
+        # numpy returns a (non-owning) view here; the tracer looks at OWNDATA
+        return SArr(out, float)[...]
 
     @real.setter
     def real(self, value):
@@ -275,7 +274,9 @@ class SArr(np.ndarray):
         for idx in np.ndindex(*self.shape):
             e = src[idx]
             out[idx] = e.imag if isinstance(e, (Sym, SymC)) else S.const(0)
-        return SArr(out, float)
+        if self._ld is not None and self._ld.kind != 'c':
+            return SArr(out, float)
+        return SArr(out, float)[...]
 
     @imag.setter
     def imag(self, value):
